@@ -18,7 +18,7 @@ RULE = ('one case per fitted model (2..6 columns, tables as in C01, fast margina
         'computation from the fitted correlation and monitor-computed normal scores (matched per column '
         'name); thorough tier adds 5000-row statistical checks; non-trivial = recorded draw compared; '
         'distinct by (model, subset, order, container, value kind)')
-DECIDING = {'cond.mean-cov-reference': 100, 'cond.fixed-columns': 100, 'cond.free-column-is-ppf-of-draw': 100,
+DECIDING = {'cond.statistical': 1, 'cond.mean-cov-reference': 100, 'cond.fixed-columns': 100, 'cond.free-column-is-ppf-of-draw': 100,
             'cond.dict-series-same': 30, 'cond.conditions-unchanged': 100}
 ASSUMPTIONS = ['recorded np.random.multivariate_normal arguments are what the sample was drawn from',
                'tolerance 1e-9 on the conditional mean/covariance (cond(S22) < 1e8)']
@@ -27,7 +27,7 @@ ASSUMPTIONS = ['recorded np.random.multivariate_normal arguments are what the sa
 def cases(seed, tier):
     rng = rng_for(seed, 'C12')
     out = []
-    reps = 14 if tier == 'quick' else 220
+    reps = 24 if tier == 'quick' else 220
     for r in range(reps):
         d = int(rng.integers(2, 7))
         t = mv.random_table_spec(rng, tier, d=d, n=int(rng.choice([200, 1000])))
@@ -35,7 +35,7 @@ def cases(seed, tier):
         t['names'] = str(rng.choice(['str', 'unsorted', 'int', 'unsorted']))
         out.append({'table': t, 'config': str(rng.choice(['class', 'name', 'dict', 'dict', 'default'], p=[.3, .2, .25, .15, .1])),
                     'n_rows': 50 if tier == 'quick' else int(rng.choice([50, 7, 1])),
-                    'stat': tier == 'thorough' and r % 10 == 0, 'seed': int(rng.integers(1 << 31))})
+                    'stat': r % (3 if tier == 'quick' else 5) == 0, 'seed': int(rng.integers(1 << 31))})
     return out
 
 
@@ -119,6 +119,15 @@ def run_case(spec, ctx):
             ctx.check(fixed_ok, 'cond.fixed-columns', 'C12:conditioned-column-not-equal-to-given-value',
                       lambda: dict(wc, given=vals, got={repr(cols[j]): V[0, j] for j in idx}))
             draws = [e for e in log if e['fn'] == 'multivariate_normal']
+            uni_draws = [e for e in log if e['fn'] == 'normal']
+            if len(draws) != 1 and len(uni_draws) == 1 and len(cols) - len(idx) == 1:
+                # a single free column drawn with np.random.normal(loc, scale): same law, other call
+                e0 = uni_draws[0]
+                loc = e0['kwargs'].get('loc', e0['args'][0] if e0['args'] else 0.0)
+                sc = e0['kwargs'].get('scale', e0['args'][1] if len(e0['args']) > 1 else 1.0)
+                draws = [{'args': (np.atleast_1d(np.asarray(loc, dtype=float)).ravel()[:1],
+                                   np.atleast_2d(np.asarray(sc, dtype=float) ** 2).reshape(1, 1)[:1, :1]),
+                          'result': np.asarray(e0['result'], dtype=float).reshape(n, 1)}]
             if len(draws) != 1:
                 ctx.inconclusive('cond.mean-cov-reference', 'recorded-draws-not-one-mvn-call', wc)
                 continue
@@ -190,14 +199,14 @@ def run_case(spec, ctx):
 def _statistical(ctx, model, df, cols, S, rng, where):
     """5000 rows: mean and covariance of the back-transformed normal scores of the free columns."""
     d = len(cols)
-    k = int(rng.integers(1, d))
+    k = d - 1 if rng.random() < 0.5 else int(rng.integers(1, d))      # all-but-one column is its own code path
     given = sorted(rng.choice(d, size=k, replace=False).tolist())
     free = [j for j in range(d) if j not in given]
     if any(df[cols[j]].nunique() < 50 for j in range(d)):
         return
     vals = {cols[j]: float(np.quantile(df[cols[j]], rng.uniform(0.1, 0.9))) for j in given}
     model.set_random_state(int(rng.integers(1 << 30)))
-    N = 5000
+    N = 3000
     ok, out = ctx.call(model.sample, N, conditions=vals)
     if not ok:
         return
